@@ -19,13 +19,14 @@ MC = {
     "C01": {"quick": ["MC_C01_quick.cfg"], "thorough": ["MC_C01_thorough.cfg", "MC_C01_stop.cfg"]},
     "C02": {"quick": ["MC_C02_quick.cfg"], "thorough": ["MC_C02_thorough.cfg"]},
     "C03": {"quick": ["MC_C03_quick.cfg", "MC_C03_stopquick.cfg"], "thorough": ["MC_C03_thorough.cfg", "MC_C03_stop.cfg"]},
-    "C04": {"quick": ["MC_C04_quick.cfg"], "thorough": ["MC_C04_thorough2.cfg", "MC_C04_thorough.cfg"]},
+    "C04": {"quick": ["MC_C04_quick.cfg", "MC_C04_stopquick.cfg"], "thorough": ["MC_C04_thorough2.cfg", "MC_C04_stopquick.cfg", "MC_C04_thorough.cfg"]},
     "C05": {"quick": ["MC_C05_quick.cfg"], "thorough": ["MC_C05_quick.cfg", "MC_C05_thorough.cfg"]},
-    "C15": {"quick": ["MC_C15_quick.cfg", "MC_C15_live.cfg"], "thorough": ["MC_C15_thorough.cfg", "MC_C15_live.cfg"]},
+    "C15": {"quick": ["MC_C15_quick.cfg", "MC_C15_repeat.cfg", "MC_C15_live.cfg"], "thorough": ["MC_C15_thorough.cfg", "MC_C15_repeat.cfg", "MC_C15_live.cfg"]},
+    # C08 (second stage of c08_check): the labels a finished run leaves behind under stop / timeout interleavings
+    "C08": {"quick": ["MC_C08_labels.cfg"], "thorough": ["MC_C08_labels.cfg", "MC_C15_repeat.cfg"]},
 }
 # invariants that the model of the current code violates: counter-examples are leads to replay
 LEADS = {
-    "C04": ["MC_lead_C04_HandlerLog.cfg", "MC_lead_C04_NoRunningLeft.cfg"],
     "C05": ["MC_lead_C05_NoLateStart.cfg", "MC_lead_C05_KillReaches.cfg"],
 }
 # scenario families of the harness's own generator, (family, quick count, thorough count)
@@ -35,7 +36,8 @@ FAMILIES = {
     "C03": [("order", 400, 6000), ("dry", 150, 1500), ("stop", 200, 3000), ("timeout", 40, 300), ("limit", 100, 1500)],
     "C04": [("outcome", 600, 8000), ("stop", 300, 4000), ("order", 100, 1500)],
     "C05": [("stop", 800, 10000), ("timeout", 80, 600), ("outcome", 100, 1500)],
-    "C15": [("limit", 600, 8000), ("order", 200, 3000), ("stop", 100, 1500)],
+    "C15": [("limit", 600, 8000), ("order", 200, 3000), ("stop", 100, 1500), ("replimit", 150, 2000)],
+    "C08": [("stop", 400, 5000), ("outcome", 150, 2000), ("timeout", 40, 300), ("replimit", 100, 1500)],
 }
 # model families simulated for model-driven replay, (sim cfg, quick count, thorough count)
 SIMS = {
@@ -45,6 +47,7 @@ SIMS = {
     "C04": [("MC_sim_Outcome.cfg", 200, 2500)],
     "C05": [("MC_sim_Stop.cfg", 200, 2500)],
     "C15": [("MC_sim_Limit.cfg", 200, 2500)],
+    "C08": [("MC_sim_Stop.cfg", 100, 1500)],
 }
 FREE = {"quick": 80, "thorough": 1000}
 FREE_LISTENER = {"quick": 250, "thorough": 3000}
@@ -123,7 +126,7 @@ def run(prop, tier, seed, replay=None):
         shutil.rmtree(work, ignore_errors=True)
 
 
-def _run(prop, tier, seed, replay, rep, vh, work):
+def _run(prop, tier, seed, replay, rep, vh, work, finish=True):
     q = tier == "quick"
     scen_path = os.path.join(work, "scenarios.jsonl")
     scenarios = []          # explicit scenarios (pinned findings, leads, model behaviours, replay)
@@ -348,4 +351,4 @@ def _run(prop, tier, seed, replay, rep, vh, work):
         "gates serialise the goroutines of the real scheduler at the hook points; between two gates a goroutine runs unhindered",
         "free-running runs rely on the status trace points being called under n.mu (hook placement)",
     ]
-    return rep.finish()
+    return rep.finish() if finish else None
